@@ -697,7 +697,13 @@ fn main() {
                 RELEASE.store(1, SeqCst);
             }
             match target.join() {
-                Ok(()) => ctx.fail("the cancelled receiver coroutine finished normally although every Sender was alive".into()),
+                // mode 2 releases the senders right after cancel(): a receiver that was not blocked may see
+                // Disconnected without passing a cancellation point and finish normally
+                Ok(()) => {
+                    if rxcancel != 2 {
+                        ctx.fail("the cancelled receiver coroutine finished normally although every Sender was alive".into())
+                    }
+                }
                 Err(e) => {
                     // the Cancel error is not a string payload; an ordinary panic is
                     if let Some(m) = e.downcast_ref::<&str>().map(|s| s.to_string()).or_else(|| e.downcast_ref::<String>().cloned()) {
